@@ -225,32 +225,11 @@ def submodule_ignores_out():
 
 
 WITNESS = {
-    'C02-nested-parameter-not-substituted': nested_param,
-    'C02-scoped-substring-replace': scoped_substring,
-    'C02-nested-This': nested_this,
-    'C02-scoped-parameter-templated-instantiation': scoped_templated_inst,
-    'C03-keywords-async-await': keywords_async,
-    'C03-namespace-reopened': namespace_reopened,
     'C03-typedef-outside-its-template-namespace': typedef_before_namespace,
-    'C04-function-template-callee-mangled': function_callee_mangled,
-    'C08-capitalisation-replaces-every-occurrence': instantiate_name_caps,
-    'C09-namespaced-variable-with-value': namespaced_variable_value,
     'C09-class-enum-variable-clash': class_enum_variable_clash,
-    'C15-enums-of-ignored-class': ignored_class_enums,
-    'C15-matlab-global-class-ignore': matlab_global_ignore,
-    'C16-matlab-files-concatenated-without-separator': matlab_concat,
-    'C16-scripts-crash-without-ignore': scripts_without_ignore,
     'C16-submodule-output-path-ignores-out': submodule_ignores_out,
-    'C17-overload-index-out-of-range': xml_index_error,
-    'C17-repr-escapes-are-not-cpp-escapes': repr_escape,
-    'C06-static-methods-always-assign-varargout': static_varargout,
-    'C06-templated-method-with-pair-return-crashes': templated_pair_crash,
-    'C06-templated-container-parameter-crashes': vector_param_crash,
-    'C06-property-name-containing-get-or-set': property_get_set_name,
     'C12-two-token-terminals': two_token_terminals,
     'C12-comment-glued-to-default-value': comment_glued_to_default,
-    'C01-tab-in-default-value-expanded': tab_in_default,
-    'C14-open-without-encoding': open_without_encoding,
     'C01-qualifiers-in-instantiation-list-dropped': qualifiers_in_instantiation_list,
 }
 
